@@ -301,7 +301,7 @@ impl Property for C16 {
             }
             // the generator keeps context-changing tags out of "ns" documents; a tag that appears
             // by accident (an unquoted `>` ending a tag early) or by shrinking voids the premise
-            let foreign_doc = doc.starts_with(b"<svg") || doc.starts_with(b"<math");
+            let foreign_doc = cap.toks.iter().any(|t| matches!(t, tokens::Tok::Start { name, .. } if name.eq_ignore_ascii_case("svg") || name.eq_ignore_ascii_case("math")));
             let ns_known = !foreign_doc || !cap.toks.iter().any(|t| matches!(t, tokens::Tok::Start { name, .. } | tokens::Tok::End { name, .. } if changes_ns_context(name)));
             if case.mode == "ns" && ns_known {
                 if let Some(n) = t.nodes.iter().position(|n| n.loc == *loc) {
